@@ -25,6 +25,7 @@ def _synthetic_prefixes(p):
 
 def run(ctx):
     c, p = ctx.c, ctx.p
+    shared.declared_entries_kept(ctx, "R5", "_parse_on", "'on' keys", "a null (forbidden) entry or a handler that is pruned no longer consumes its event and an ancestor's handler runs instead")
     md = p.method("BaseInterpreter", "_matching_descriptors")
     g = cfg_of(md.node)
     # ---- R1 exact < partials < '*' ---------------------------------------------------
